@@ -5,7 +5,9 @@ use std::ffi::{OsStr, OsString};
 use std::os::unix::ffi::{OsStrExt as _, OsStringExt as _};
 use std::panic::{catch_unwind, AssertUnwindSafe};
 
-const NEEDLES: &[&str] = &["-", "--", "=", "é", "=é", ",", "a", "aa", "1e", "aab", "--=", "-=-", "abab", "aba", "é=é", "a1a"];
+const NEEDLES: &[&str] = &["-", "--", "=", "é", "=é", ",", "a", "aa", "1e", "aab", "--=", "-=-", "abab", "aba", "é=é", "a1a",
+    // U+FFFD is what a lossy conversion puts in place of invalid bytes: a needle made of it must only match itself
+    "\u{FFFD}", "a\u{FFFD}"];
 const OSOPS: &[&str] = &["find", "contains", "starts", "strip", "splitonce", "split"];
 
 fn naive_find(h: &[u8], n: &[u8]) -> Option<usize> {
@@ -122,7 +124,7 @@ fn op_pool(len: usize) -> Vec<COp> {
 }
 
 pub fn run(o: &Opts) -> Report {
-    let mut rep = Report::new("C14", "OsStrExt: haystacks exhaustive over a boundary alphabet up to a length bound (then random <=48 bytes) x 9 UTF-8 needles x {find,contains,starts_with,strip_prefix,split_once,split}; RawArgs cursor: all op sequences up to a length bound over 0..3 items and an offset pool incl. i64/u64 extremes, then random sequences up to length 40; non-trivial = needle occurs in haystack / sequence contains a seek or insert; distinct by canonical request");
+    let mut rep = Report::new("C14", "OsStrExt: haystacks exhaustive over a boundary alphabet up to a length bound (then random <=48 bytes) x 18 UTF-8 needles (incl. U+FFFD) x {find,contains,starts_with,strip_prefix,split_once,split}; RawArgs cursor: all op sequences up to a length bound over 0..3 items and an offset pool incl. i64/u64 extremes, then random sequences up to length 40; non-trivial = needle occurs in haystack / sequence contains a seek or insert; distinct by canonical request");
     let mut reqs: Vec<String> = vec![];
     let mut impls: Vec<String> = vec![];
     let mut rng = Rng::new(o.seed);
@@ -164,6 +166,7 @@ pub fn run(o: &Opts) -> Report {
             }
         }
     }
+    for h in [&[0xFFu8][..], &[b'a', 0xFF], &[0xEF, 0xBF, 0xBD], &[0xFF, 0xEF, 0xBF, 0xBD], &[b'a', 0xEF, 0xBF, 0xBD, 0xFF], &[0xC3], &[b'a', 0xC3, b'='], &[0xEF, 0xBF], &[0xF0, 0x9F, 0x98]] { hays.push(h.to_vec()); }
     rep.exhaustive = true;
     rep.count_n("haystacks_exhaustive", hays.len() as u64);
     for _ in 0..(if o.thorough() { 60_000 } else { 8_000 }) {
